@@ -150,9 +150,9 @@ Value gen(uint64_t seed, const std::string& tier)
     Value f         = Value::object();
     static const char* wf[] = {"open_fail", "write_fail", "short_write", "crash_after_write", "crash_between_files"};
     static const char* de[] = {"truncate", "tear_last_line", "delete", "empty", "flip_byte", "stale", "swap_files",
-                               "append_garbage", "nan_inf_token", "locale_comma"};
+                               "append_garbage", "nan_inf_token", "locale_comma", "keep_first_lines"};
     static const char* rf[] = {"read_fail", "short_read", "open_fail"};
-    f["kind"]  = mode == 5 ? wf[g.below(5)] : mode == 6 ? de[g.below(10)] : mode == 7 ? rf[g.below(3)] : "none";
+    f["kind"]  = mode == 5 ? wf[g.below(5)] : mode == 6 ? de[g.below(11)] : mode == 7 ? rf[g.below(3)] : "none";
     f["file"]  = g.range(0, 1);
     f["k"]     = g.range(0, 80);
     f["bytes"] = g.range(0, 20);
@@ -450,6 +450,13 @@ void run(const Value& plan, Result& r)
             size_t cut = data.size() >= 2 ? data.rfind('\n', data.size() - 2) : std::string::npos;
             size_t keep = (cut == std::string::npos ? 0 : cut + 1) + (size_t)f.at("bytes").as_int(0) % 12;
             spit(target, data.substr(0, std::min(keep, data.size())));
+        }
+        else if (kind == "keep_first_lines") {
+            // only the first 0..4 values survive (the smallest lists the loader may accept)
+            size_t pos = 0;
+            for (long q = 0; q < f.at("k").as_int(0) % 5 && pos != std::string::npos; q++)
+                pos = data.find('\n', pos) == std::string::npos ? std::string::npos : data.find('\n', pos) + 1;
+            spit(target, pos == std::string::npos ? data : data.substr(0, pos));
         }
         else if (kind == "delete")
             unlink(target.c_str());
